@@ -4,7 +4,7 @@ its property (or of `detected_by`), revert. Prints one line per change and a sum
 import glob, json, os, subprocess, sys, time
 
 def sh(cmd, cwd=None):
-    p = subprocess.run(cmd, shell=True, cwd=cwd, stdout=subprocess.PIPE, stderr=subprocess.STDOUT, text=True)
+    p = subprocess.run(cmd, shell=True, cwd=cwd, stdout=subprocess.PIPE, stderr=subprocess.STDOUT, text=True, errors="replace")
     return p.returncode, p.stdout
 
 rc, o = sh("git status --porcelain", cwd="/repo")
